@@ -265,6 +265,14 @@ def collect(prop, runs):
     for r in runs:
         if "error" in r:
             stats["disagreements"].append(dict(op="<family %s>" % r["tag"], real=r["error"], model="", family=r["tag"]))
+            # the real-code side died part-way (an abort kills the process): what the oracle had written until then
+            # still names failing inputs
+            orac = os.path.join(os.path.dirname(r.get("ops", "")), r["tag"] + ".oracle") if r.get("ops") else None
+            if orac and os.path.exists(orac):
+                for line in open(orac, errors="replace"):
+                    mm = re.match(r"FAIL (C\d+) ", line)
+                    if mm and mm.group(1) == prop:
+                        stats["oracle"].append(line.rstrip("\n"))
             continue
         with open(r["ops"], errors="replace") as fo, open(r["real"], errors="replace") as fr, open(r["model"], errors="replace") as fm:
             n = 0
